@@ -13,6 +13,7 @@ import AiuVerif.Lemmas.Overlap
 import AiuVerif.Lemmas.OverlapSort
 import AiuVerif.Lemmas.OverlapLanes
 import AiuVerif.Lemmas.OverlapRound
+import AiuVerif.Lemmas.OverlapFuel
 
 namespace AiuVerif.C04
 open AiuVerif.Overlap
@@ -177,6 +178,67 @@ theorem no_assert (mode : Mode) (evs : List Ev) (hnn : ∀ e ∈ evs, 0 ≤ e.ts
       | tid => exact famDisj_built _ _
       | drop => exact famDisj_nil _
   · cases h
+
+/-- **Budget (-O tid): a lane owns at most `max_tid_streams` = 5 extra lanes.** For every input
+lane `(pid, T)` there is one list `c` of at most 5 tids such that every slice of that lane leaves
+the sub-pipeline on tid `T` or on a tid of `c` (and by `lanes_not_merged` nobody else uses them).
+A slice that collides on all six has nowhere to go: that is the `KeyError` of `error_is_budget`. -/
+theorem lane_budget (evs out : List Ev) (h : pipeline .tid evs = .ok out) (pid T : Nat) :
+    ∃ c : List Nat, c.length ≤ maxTidStreams ∧
+      ∀ q ∈ (sortStage evs).zip out, q.1.isX = true → q.1.pid = pid → q.1.tid = T →
+        q.2.tid = T ∨ q.2.tid ∈ c := by
+  unfold pipeline at h
+  simp only [] at h
+  split at h
+  · cases h
+  rename_i st' out' hd
+  injection h with h; subst h
+  let seen := seenOf ((sortStage evs).foldl collect []) pid
+  have hnd : seen.Nodup := seenOf_foldl_nodup (sortStage evs) [] (fun p => by simp [seenOf, amapGet]) pid
+  by_cases hT : T ∈ seen
+  · obtain ⟨c, hlen, hc⟩ := owns_budget (n := maxTidStreams) hnd hT
+    refine ⟨c, hlen, ?_⟩
+    intro q hq hx hp ht
+    obtain ⟨_, _, hr⟩ := detectAll_tid_zip _ _ _ _ _ _ hd q hq
+    rw [hp, ht] at hr
+    exact hc _ (owns_reach (nextOf_buildSpaces maxTidStreams (sortStage evs) pid) (owns_self hT) hr)
+  · refine ⟨[], by simp, ?_⟩
+    intro q hq hx hp ht
+    exfalso
+    have := seenOf_foldl_mem (sortStage evs) [] q.1 (List.of_mem_zip hq).1 hx
+    rw [hp, ht] at this
+    exact hT this
+
+/-- The model's fuel guard is an artefact that never shows: `find_next_tid` of a built space is
+strictly increasing (`pidMap_built_lt`), so the re-detection recursion ends within the fuel
+`#entries + 1` for every input (no hypothesis on the events). -/
+theorem no_fuel_exhaustion (mode : Mode) (evs : List Ev) : pipeline mode evs ≠ .error .recursion := by
+  intro h
+  unfold pipeline at h
+  simp only [] at h
+  split at h
+  · rename_i e' hd
+    injection h with h; subst h
+    revert hd
+    cases mode with
+    | tid =>
+      exact detectAll_no_recursion _ _ (hopsLeft (buildSpaces maxTidStreams (sortStage evs)))
+        (fun p t t' hn => hopsLeft_decreases (pidMap_built_lt _ _) hn) _
+        (fun p t => Nat.le_succ_of_le (hopsLeft_le _ p t)) _ _
+    | drop =>
+      exact detectAll_no_recursion _ _ (hopsLeft [])
+        (fun p t t' hn => by simp [nextOf, amapGet] at hn) _
+        (fun p t => Nat.le_succ_of_le (hopsLeft_le _ p t)) _ _
+  · cases h
+
+/-- **Budget branch.** On well-formed input (timestamps ≥ 0) the only way the -O tid sub-pipeline
+can fail is the `KeyError` of `find_next_tid` at the end of a tid range, i.e. a slice that collided
+on its own lane and on all `max_tid_streams` lanes of its range (witness below: a staircase of 7). -/
+theorem error_is_budget (evs : List Ev) (hnn : ∀ e ∈ evs, 0 ≤ e.ts) (e : Err)
+    (h : pipeline .tid evs = .error e) : e = .keyError := by
+  rcases no_assert .tid evs hnn e h with h1 | h1
+  · exact h1
+  · exact absurd (h1 ▸ h) (no_fuel_exhaustion .tid evs)
 
 /-- **-O drop is total on well-formed input**: it always produces an output (to which
 `laminar_drop` and `drop_sublist` apply). -/
